@@ -1,13 +1,115 @@
 """C03 - see harness/lifecycle.py (Lifecycle.tla, TraceLifecycle.tla with Focus = "C03")."""
+import os, random, shutil, tempfile
+import numpy as np
+
 from harness.lifecycle import run_lifecycle, replay_lifecycle
+from harness.util import outcome
+
+
+def big_stages(ctx):
+    """C03 at study size (TLC validates histories over a dozen experiments; a retrospective study has thousands): a prepared screen of 6,500
+    two-drug experiments in no particular order, and the stages derived from it - training and test halves, observed / unobserved parts,
+    a revealed plate, a save / load round trip, the parts combined again.  The clause is evaluated in the harness: on every stage every
+    treatment id decodes, through the PREPARED mapping, to that row's own (name, dose); the stage carries the prepared mappings (as sets of
+    entries); sample ids likewise."""
+    from batchie.data import Screen
+    rnd = random.Random(ctx.seed + 77)
+    n = 6500
+    drugs = ["cmpd%02d" % i for i in range(60)]
+    doses = [0.01, 0.3, 2.5, 40.0]
+    tn = np.array([[rnd.choice(drugs), rnd.choice(drugs + ["ctl"])] for _ in range(n)], dtype=str)
+    td = np.array([[rnd.choice(doses), rnd.choice(doses)] for _ in range(n)], dtype=float)
+    td[tn == "ctl"] = 0.0
+    plates = sorted(rnd.randrange(50) for _ in range(n))
+    pn = np.array(["plate%02d" % p for p in plates], dtype=str)
+    sn = np.array(["line%02d" % ((p * 7 + rnd.randrange(2)) % 30) for p in plates], dtype=str)
+    mask = np.array([p < 6 for p in plates], dtype=bool)
+    obs = np.array([0.2 + 0.0001 * (i % 5000) for i in range(n)])          # (a retrospective screen holds every outcome; the mask hides them)
+    st, prep = outcome(Screen, treatment_names=tn, treatment_doses=td, sample_names=sn, plate_names=pn, observations=obs, observation_mask=mask,
+                       control_treatment_name="ctl")
+    if st != "ok":
+        return "Screen(...) of %d experiments raised %s" % (n, prep)
+    tmap = {int(c): (str(a), float(b)) for a, b, c in zip(*prep.treatment_mapping)}
+    smap = {int(b): str(a) for a, b in zip(*prep.sample_mapping)}
+    tset = {(str(a), float(b), int(c)) for a, b, c in zip(*prep.treatment_mapping)}
+
+    def check(name, s):
+        ctx.evaluations += 1
+        if s is None:
+            return "stage '%s' is missing" % name
+        if {(str(a), float(b), int(c)) for a, b, c in zip(*s.treatment_mapping)} != tset:
+            return "stage '%s' (%d experiments) does not carry the prepared treatment mapping" % (name, s.size)
+        ids = np.asarray(s.treatment_ids).astype(int)
+        for i in range(s.size):
+            for a in range(ids.shape[1]):
+                nm, ds = str(s.treatment_names[i, a]), float(s.treatment_doses[i, a])
+                ctl = nm == "ctl" or ds <= 0
+                if (ids[i, a] == -1) != ctl or (not ctl and tmap.get(int(ids[i, a])) != (nm, ds)):
+                    return "stage '%s' (%d experiments): experiment %d slot %d is (%s, %g) but carries treatment id %d, which the prepared mapping decodes as %s" % (
+                        name, s.size, i, a, nm, ds, ids[i, a], tmap.get(int(ids[i, a])))
+            if smap.get(int(s.sample_ids[i])) != str(s.sample_names[i]):
+                return "stage '%s': experiment %d of sample %s carries sample id %d (prepared: %s)" % (name, i, s.sample_names[i], int(s.sample_ids[i]), smap.get(int(s.sample_ids[i])))
+        return None
+
+    from batchie import retrospective as R
+    tmp = tempfile.mkdtemp(prefix="verif-c03-")
+    try:
+        msg = check("prepared", prep)
+        if msg:
+            return msg
+        for hname, hold in (("plate-balanced hold-out", R.create_plate_balanced_holdout_set_among_masked_plates), ("random hold-out", R.create_random_holdout)):
+            st, halves = outcome(hold, prep, 0.1, np.random.default_rng(ctx.seed + 5))
+            if st != "ok":
+                return "%s of the prepared screen raised %s" % (hname, halves)
+            tr, te = halves
+            fn = os.path.join(tmp, "t.h5")
+            steps = [("training screen", lambda: tr), ("test screen", lambda: te),
+                     ("training, masked", lambda: R.mask_screen(tr)), ("training, unmasked", lambda: R.unmask_screen(tr)),
+                     ("test, unmasked", lambda: R.unmask_screen(te)),
+                     ("training after save / load", lambda: (tr.save_h5(fn), Screen.load_h5(fn))[1])]
+            cur = {}
+            for name, f in steps:
+                st, s = outcome(f)
+                if st != "ok":
+                    return "%s: stage '%s' raised %s" % (hname, name, s)
+                cur[name] = s
+                msg = check("%s: %s" % (hname, name), s)
+                if msg:
+                    return msg
+            # plates revealed one after the other on the reloaded training screen (first, last, one in the middle), saved and reloaded in between
+            s = cur["training after save / load"]
+            hidden = [int(p.plate_id) for p in s.plates if not p.is_observed]
+            for k, pid in enumerate([hidden[0], hidden[-1], hidden[len(hidden) // 2]]):
+                st, s2 = outcome(R.reveal_plates, s, [pid])
+                if st != "ok":
+                    return "%s: revealing plate %d raised %s" % (hname, pid, s2)
+                msg = check("%s: training after reveal %d" % (hname, k + 1), s2)
+                if msg:
+                    return msg
+                s2.save_h5(fn)
+                s = Screen.load_h5(fn)
+                msg = check("%s: training after reveal %d, saved and reloaded" % (hname, k + 1), s)
+                if msg:
+                    return msg
+    finally:
+        shutil.rmtree(tmp, ignore_errors=True)
+    return None
 
 
 def run(ctx):
     run_lifecycle(ctx, "C03")
+    msg = big_stages(ctx)
+    if msg:
+        ctx.violation(msg, {"kind": "big-stages"})
     if not ctx.quick:      # the composed loop (real script + real command-line programs): this property's clauses of it
         from harness.pipeline import run_e2e
         run_e2e(ctx, "C03", [(2, ctx.seed), (3, ctx.seed + 1)])
 
 
 def replay(ctx, rp):
+    if rp.get("kind") == "big-stages":
+        msg = big_stages(ctx)
+        if msg:
+            ctx.violation(msg, rp)
+        return
     replay_lifecycle(ctx, "C03", rp)
